@@ -411,7 +411,8 @@ Lemma parse_params_eq : forall f named acc ts,
     end
   else
     match parse_expr_param ts with
-    | Ok (p, ts1) => after f named (acc ++ [p]) ts1
+    | Ok (Some p, ts1) => after f named (acc ++ [p]) ts1
+    | Ok (None, ts1) => after f named acc ts1
     | ParseErr => ParseErr | OOF r => OOF r | OutOfFuel => OutOfFuel
     end.
 Proof. reflexivity. Qed.
@@ -542,7 +543,7 @@ Qed.
 (* an unknown plain name in argument position goes through parseIdentifierOrFunction *)
 Lemma parse_expr_ident : forall s tail,
   ident_ok s = true -> (name_tok s =? T_IDENT) = true -> sep_head tail = true ->
-  parse_expr_param (t_name s :: tail) = Ok (PIdent s, tail).
+  parse_expr_param (t_name s :: tail) = Ok (Some (PIdent s), tail).
 Proof.
   intros s tail Hid Htok Hsep. unfold parse_expr_param. cbn [cur tl].
   rewrite (tok_is_name_false T_STRING), (tok_is_name_false T_NUMBER), (tok_is_name_false T_MINUS) by reflexivity.
@@ -675,3 +676,315 @@ Theorem parse_print : forall t fuel rest,
   wf_ty t = true -> code_ok t = true -> follow_ok rest = true -> (fuel_ty t <= fuel)%nat ->
   parse_dt fuel (print_ty t ++ rest) = Ok (Some (expect_dt t), rest).
 Proof. intros t fuel rest Hw Hc Hf Hfuel. apply parse_print_all; assumption. Qed.
+
+(* ------------------------------------------------------------------------------------------ *)
+(* D. the two cast positions *)
+
+Lemma explain_expect : forall t, wf_ty t = true -> code_ok t = true ->
+  explain_type (Some (expect_dt t)) = shown t.
+Proof.
+  intros [s|s args] Hw Hc.
+  - unfold explain_type, shown. cbn [expect_dt dt_params fmt_dt canon_ty].
+    rewrite escape_string_literal_is_esc2. reflexivity.
+  - pose proof (fmt_expect _ Hw Hc) as Hf.
+    apply wf_app_inv in Hw. destruct Hw as (_ & _ & Hne & _).
+    destruct args as [|a r]; [congruence|].
+    unfold explain_type, shown. rewrite Hf. reflexivity.
+Qed.
+
+Lemma follow_ok_rparen : forall rest, follow_ok (t_rparen :: rest) = true.
+Proof. reflexivity. Qed.
+
+Lemma peek_print_ty_rparen : forall t rest,
+  tok_is T_AS (peek (print_ty t ++ t_rparen :: rest)) || tok_is T_COMMA (peek (print_ty t ++ t_rparen :: rest)) = false.
+Proof. intros [s|s args] rest; reflexivity. Qed.
+
+(* CAST(x AS T): from the AS token on; [vas] is the spelling of AS *)
+Theorem cast_as_shows : forall t, wf_ty t = true -> code_ok t = true ->
+  forall fuel vas rest, (fuel_ty t <= fuel)%nat ->
+  cast_as_text fuel ((T_AS, vas) :: print_ty t ++ t_rparen :: rest) = Ok (shown t, rest).
+Proof.
+  intros t Hw Hc fuel vas rest Hfuel. unfold cast_as_text, parse_cast_as. cbn [cur tl].
+  change (tok_is T_AS (T_AS, vas)) with true. cbv iota.
+  rewrite (cur_print_ty t), is_name_t_name, peek_print_ty_rparen. cbn [andb].
+  rewrite (parse_print t fuel (t_rparen :: rest) Hw Hc (follow_ok_rparen rest) Hfuel).
+  change (expect_rparen (t_rparen :: rest)) with (@Ok (list tok) rest). cbv iota.
+  rewrite (explain_expect t Hw Hc). reflexivity.
+Qed.
+
+(* x::T: from the :: token on *)
+Theorem cast_op_shows : forall t, wf_ty t = true -> code_ok t = true ->
+  forall fuel vcc rest, (fuel_ty t <= fuel)%nat -> follow_ok rest = true ->
+  cast_op_text fuel ((T_COLONCOLON, vcc) :: print_ty t ++ rest) = Ok (shown t, rest).
+Proof.
+  intros t Hw Hc fuel vcc rest Hfuel Hfol. unfold cast_op_text, parse_cast_op. cbn [cur tl].
+  change (tok_is T_COLONCOLON (T_COLONCOLON, vcc)) with true. cbv iota.
+  rewrite (parse_print t fuel rest Hw Hc Hfol Hfuel), (explain_expect t Hw Hc). reflexivity.
+Qed.
+
+(* FULL STATEMENT (C18), refuted below by C18_refuted_F1 .. F4:
+     forall t, wf_ty t = true ->
+       (forall fuel vas rest, fuel_ty t <= fuel ->
+          cast_as_text fuel ((T_AS, vas) :: print_ty t ++ t_rparen :: rest) = Ok (shown t, rest)) /\
+       (forall fuel vcc rest, fuel_ty t <= fuel -> follow_ok rest = true ->
+          cast_op_text fuel ((T_COLONCOLON, vcc) :: print_ty t ++ rest) = Ok (shown t, rest)).
+   PROVED PART: the same with the additional hypothesis [code_ok t = true] (the four deviations F1-F4 of
+   TypeSpec excluded); any nesting depth, any argument list length, every string for Enum values except
+   those containing a quote, every string without the eight escaped bytes for plain string arguments. *)
+Theorem C18_casts_partial : forall t, wf_ty t = true -> code_ok t = true ->
+  (forall fuel vas rest, (fuel_ty t <= fuel)%nat ->
+     cast_as_text fuel ((T_AS, vas) :: print_ty t ++ t_rparen :: rest) = Ok (shown t, rest)) /\
+  (forall fuel vcc rest, (fuel_ty t <= fuel)%nat -> follow_ok rest = true ->
+     cast_op_text fuel ((T_COLONCOLON, vcc) :: print_ty t ++ rest) = Ok (shown t, rest)).
+Proof.
+  intros t Hw Hc. split.
+  - intros fuel vas rest Hfuel. apply cast_as_shows; assumption.
+  - intros fuel vcc rest Hfuel Hfol. apply cast_op_shows; assumption.
+Qed.
+
+(* the same over lexer items: any spacing, comments and positions (everything [erase] forgets) *)
+Corollary C18_items_partial : forall t, wf_ty t = true -> code_ok t = true ->
+  forall fuel (its_as its_op : list item) vas vcc rest_as rest_op,
+  (fuel_ty t <= fuel)%nat -> follow_ok rest_op = true ->
+  erase its_as = (T_AS, vas) :: print_ty t ++ t_rparen :: rest_as ->
+  erase its_op = (T_COLONCOLON, vcc) :: print_ty t ++ rest_op ->
+  cast_as_text fuel (erase its_as) = Ok (shown t, rest_as) /\
+  cast_op_text fuel (erase its_op) = Ok (shown t, rest_op).
+Proof.
+  intros t Hw Hc fuel its_as its_op vas vcc rest_as rest_op Hfuel Hfol Ea Eo.
+  rewrite Ea, Eo. split; [apply cast_as_shows|apply cast_op_shows]; assumption.
+Qed.
+
+(* ------------------------------------------------------------------------------------------ *)
+(* E. the driver entry points *)
+
+Definition tok_good (t : tok) : bool :=
+  negb (is_trivia t) && negb (tok_is T_EOF t) && (negb (is_name t) || is_ascii (tv t)).
+
+Lemma forallb_join : forall (p : tok -> bool) sep ls,
+  forallb p sep = true -> Forall (fun l => forallb p l = true) ls -> forallb p (join sep ls) = true.
+Proof.
+  intros p sep ls Hsep HF. induction HF as [|x r Hx Hr IH]; [reflexivity|].
+  destruct r as [|y r']; [exact Hx|].
+  rewrite join_cons2, !forallb_app, Hx, Hsep, IH. reflexivity.
+Qed.
+
+Lemma ident_ascii : forall s, ident_ok s = true -> is_ascii s = true.
+Proof.
+  intros s H. unfold is_ascii. apply (forallb_impl _ is_word_byte); [|apply ident_ok_word, H].
+  intros b Hb. unfold is_word_byte, is_digit_byte, is_alpha_byte in Hb. lia.
+Qed.
+
+Lemma tok_good_name : forall s, ident_ok s = true -> tok_good (t_name s) = true.
+Proof.
+  intros s H. unfold tok_good, is_trivia.
+  change (tk (t_name s) =? T_WHITESPACE) with (tok_is T_WHITESPACE (t_name s)).
+  change (tk (t_name s) =? T_LINE_COMMENT) with (tok_is T_LINE_COMMENT (t_name s)).
+  rewrite !tok_is_name_false by reflexivity.
+  change (tv (t_name s)) with s. rewrite (ident_ascii s H), orb_true_r. reflexivity.
+Qed.
+
+Definition Pg (t : ty) : Prop := wf_ty t = true -> forallb tok_good (print_ty t) = true.
+Definition Qg (a : arg) : Prop := forall named, wf_arg named a = true -> forallb tok_good (print_arg a) = true.
+
+Lemma good_args : forall named args, Forall Qg args -> forallb (wf_arg named) args = true ->
+  Forall (fun l => forallb tok_good l = true) (map print_arg args).
+Proof.
+  intros named args HF. induction HF as [|a r Ha _ IH]; intros Hw; [constructor|].
+  cbn [forallb] in Hw. apply andb_true_iff in Hw. destruct Hw as [H1 H2].
+  cbn [map]. constructor; [apply (Ha named H1)|apply IH, H2].
+Qed.
+
+Lemma print_good_all : forall t, Pg t.
+Proof.
+  apply (ty_ind2 Pg Qg).
+  - intros s Hw. cbn in Hw. cbn [print_ty forallb]. rewrite (tok_good_name s Hw). reflexivity.
+  - intros s args HF Hw. apply wf_app_inv in Hw. destruct Hw as (Hs & _ & _ & Hwa).
+    cbn [print_ty forallb]. rewrite (tok_good_name s Hs). cbn [andb].
+    change (tok_good t_lparen) with true. cbn [andb].
+    rewrite forallb_app, (forallb_join tok_good [t_comma] _ eq_refl (good_args _ _ HF Hwa)). reflexivity.
+  - intros t IH named Hw. cbn [wf_arg] in Hw. apply andb_true_iff in Hw. destruct Hw as [Hw _].
+    apply IH, Hw.
+  - intros s t IH named Hw. cbn [wf_arg] in Hw.
+    repeat (apply andb_true_iff in Hw; destruct Hw as [Hw ?]).
+    cbn [print_arg forallb]. rewrite (tok_good_name s) by assumption. apply IH. assumption.
+  - intros n named _. reflexivity.
+  - intros n named _. reflexivity.
+  - intros s named _. reflexivity.
+  - intros s [|] n named _; reflexivity.
+Qed.
+
+Lemma filter_all : forall (A : Type) (p : A -> bool) l, forallb p l = true -> filter p l = l.
+Proof.
+  intros A p l. induction l as [|x l IH]; cbn; [reflexivity|].
+  intros H. apply andb_true_iff in H. destruct H as [Hx Hl]. rewrite Hx, (IH Hl). reflexivity.
+Qed.
+
+Lemma print_clean : forall t, wf_ty t = true ->
+  drop_eof (strip_trivia (print_ty t)) = print_ty t /\ ascii_names (print_ty t) = true.
+Proof.
+  intros t Hw. pose proof (print_good_all t Hw) as Hg. split.
+  - unfold drop_eof, strip_trivia.
+    rewrite (filter_all _ (fun t0 => negb (is_trivia t0))).
+    + apply filter_all. revert Hg. apply forallb_impl. intros x Hx. unfold tok_good in Hx.
+      destruct (negb (tok_is T_EOF x)); [reflexivity|]. rewrite andb_false_r in Hx. discriminate.
+    + revert Hg. apply forallb_impl. intros x Hx. unfold tok_good in Hx.
+      destruct (negb (is_trivia x)); [reflexivity|discriminate].
+  - unfold ascii_names. revert Hg. apply forallb_impl. intros x Hx. unfold tok_good in Hx.
+    apply andb_true_iff in Hx. destruct Hx as [_ Hx]. exact Hx.
+Qed.
+
+Lemma join_length : forall (A : Type) (c : A) (ls : list (list A)),
+  (list_sum (map (@length A) ls) + length ls <= length (join [c] ls) + 1)%nat.
+Proof.
+  intros A c ls. induction ls as [|x r IH]; [cbn; lia|].
+  destruct r as [|y r'].
+  - cbn. lia.
+  - rewrite join_cons2, !app_length. unfold list_sum in *. cbn [map fold_right length] in IH |- *. lia.
+Qed.
+
+Definition Pl (t : ty) : Prop := (fuel_ty t <= length (print_ty t))%nat.
+Definition Ql (a : arg) : Prop := (fuel_arg a <= length (print_arg a))%nat.
+
+Lemma fuel_args_le : forall args, Forall Ql args ->
+  (list_sum (map fuel_arg args) <= list_sum (map (@length tok) (map print_arg args)))%nat.
+Proof.
+  intros args HF. induction HF as [|a r Ha _ IH]; [cbn; lia|].
+  unfold list_sum in *. cbn [map fold_right] in IH |- *. unfold Ql in Ha. lia.
+Qed.
+
+Lemma fuel_le_tokens_all : forall t, Pl t.
+Proof.
+  apply (ty_ind2 Pl Ql); unfold Pl, Ql.
+  - intros s. cbn. lia.
+  - intros s args HF. cbn [fuel_ty print_ty length]. rewrite app_length. cbn [length].
+    pose proof (fuel_args_le args HF) as H1.
+    pose proof (join_length tok t_comma (map print_arg args)) as H2.
+    rewrite map_length in H2. lia.
+  - intros t IH. exact IH.
+  - intros s t IH. cbn [fuel_arg print_arg length]. lia.
+  - intros n. cbn. lia.
+  - intros n. cbn. lia.
+  - intros s. cbn. lia.
+  - intros s neg n. cbn [fuel_arg]. lia.
+Qed.
+
+(* FULL STATEMENT: forall t, wf_ty t = true -> forall toks, drop_eof (strip_trivia toks) = print_ty t ->
+     run_cast_as toks = Ok (shown t) /\ run_cast_op toks = Ok (shown t).   Refuted by C18_refuted_F1..F4. *)
+Theorem C18_run_partial : forall t, wf_ty t = true -> code_ok t = true ->
+  forall toks, drop_eof (strip_trivia toks) = print_ty t ->
+  run_cast_as toks = Ok (shown t) /\ run_cast_op toks = Ok (shown t).
+Proof.
+  intros t Hw Hc toks E. destruct (print_clean t Hw) as [_ Hascii].
+  assert (Hfuel : (fuel_ty t <= fuel_for (print_ty t))%nat).
+  { pose proof (fuel_le_tokens_all t) as H. unfold Pl in H. unfold fuel_for. lia. }
+  unfold run_cast_as, run_cast_op. rewrite E, Hascii. cbn [negb]. split.
+  - change ((T_AS, [65; 83]) :: print_ty t ++ [(T_RPAREN, [41])])
+      with ((T_AS, [65; 83]) :: print_ty t ++ t_rparen :: []).
+    rewrite (cast_as_shows t Hw Hc _ _ [] Hfuel). reflexivity.
+  - rewrite <- (app_nil_r (print_ty t)) at 2.
+    rewrite (cast_op_shows t Hw Hc _ _ [] Hfuel eq_refl). reflexivity.
+Qed.
+
+(* what the lexer hands over for a type written with any separators: trivia anywhere, EOF at the end *)
+Corollary C18_run_print_partial : forall t, wf_ty t = true -> code_ok t = true ->
+  run_cast_as (print_ty t ++ [eof_tok]) = Ok (shown t) /\ run_cast_op (print_ty t ++ [eof_tok]) = Ok (shown t).
+Proof.
+  intros t Hw Hc. apply C18_run_partial; try assumption.
+  destruct (print_clean t Hw) as [Hclean _].
+  unfold drop_eof, strip_trivia in *. rewrite !filter_app, Hclean. cbn. apply app_nil_r.
+Qed.
+
+(* ------------------------------------------------------------------------------------------ *)
+(* F. the full statement is false for today's code: one witness per deviation, evaluated in the model
+      (each witness is also replayed against the real code by /verif/checks/gen_type_cases.py) *)
+From Coq Require Import Strings.String Strings.Ascii.
+
+Definition B (s : string) : list N := map N_of_ascii (list_ascii_of_string s).
+
+(* F1  DateTime('it's'): FormatDataType prints a plain string argument unescaped.
+       model/code:  \'DateTime(\\\'it's\\\')\'      spec:  \'DateTime(\\\'it\\\\\\\'s\\\')\'  *)
+Definition wit_F1 : ty := TApp (B "DateTime") [AStr (B "it's")].
+(* F2  Enum8('it's' = 1): escapeStringForTypeParam writes 5 backslashes + quote, the canonical text has 7.
+       model/code:  \'Enum8(\\\'it\\\\\'s\\\' = 1)\'     spec:  \'Enum8(\\\'it\\\\\\\'s\\\' = 1)\'  *)
+Definition wit_F2 : ty := TApp (B "Enum8") [AEnum (B "it's") false 1].
+(* F3  Tuple(LineString, String): the unknown plain name is taken for an element name and dropped.
+       model/code:  \'Tuple(String)\'                 spec:  \'Tuple(LineString, String)\'  *)
+Definition wit_F3 : ty := TApp (B "Tuple") [AType (TName (B "LineString")); AType (TName (B "String"))].
+(* F4  Tuple(date Array(Int32)): element name that isDataTypeName knows, before the keyword token Array.
+       model/code:  parse error                       spec:  \'Tuple(date Array(Int32))\'  *)
+Definition wit_F4 : ty := TApp (B "Tuple") [ANamed (B "date") (TApp (B "Array") [AType (TName (B "Int32"))])].
+
+Definition differs (r : res (list N)) (expected : list N) : bool :=
+  match r with Ok out => negb (bytes_eqb out expected) | ParseErr => true | _ => false end.
+
+Definition refutes (t : ty) : Prop :=
+  wf_ty t = true /\
+  differs (run_cast_as (print_ty t ++ [eof_tok])) (shown t) = true /\
+  differs (run_cast_op (print_ty t ++ [eof_tok])) (shown t) = true.
+
+Lemma C18_refuted_F1 : refutes wit_F1 /\
+  run_cast_as (print_ty wit_F1 ++ [eof_tok]) = Ok (B "\'DateTime(\\\'it's\\\')\'") /\
+  shown wit_F1 = B "\'DateTime(\\\'it\\\\\\\'s\\\')\'".
+Proof. vm_compute. repeat split; reflexivity. Qed.
+
+Lemma C18_refuted_F2 : refutes wit_F2 /\
+  run_cast_as (print_ty wit_F2 ++ [eof_tok]) = Ok (B "\'Enum8(\\\'it\\\\\'s\\\' = 1)\'") /\
+  shown wit_F2 = B "\'Enum8(\\\'it\\\\\\\'s\\\' = 1)\'".
+Proof. vm_compute. repeat split; reflexivity. Qed.
+
+Lemma C18_refuted_F3 : refutes wit_F3 /\
+  run_cast_as (print_ty wit_F3 ++ [eof_tok]) = Ok (B "\'Tuple(String)\'") /\
+  shown wit_F3 = B "\'Tuple(LineString, String)\'".
+Proof. vm_compute. repeat split; reflexivity. Qed.
+
+Lemma C18_refuted_F4 : refutes wit_F4 /\
+  run_cast_as (print_ty wit_F4 ++ [eof_tok]) = ParseErr /\
+  run_cast_op (print_ty wit_F4 ++ [eof_tok]) = ParseErr /\
+  shown wit_F4 = B "\'Tuple(date Array(Int32))\'".
+Proof. vm_compute. repeat split; reflexivity. Qed.
+
+(* hence the unrestricted statement does not hold of the model of today's code *)
+Theorem C18_full_refuted :
+  ~ (forall t, wf_ty t = true ->
+       run_cast_as (print_ty t ++ [eof_tok]) = Ok (shown t) /\ run_cast_op (print_ty t ++ [eof_tok]) = Ok (shown t)).
+Proof.
+  intros H. destruct (H wit_F1) as [H1 _]; [vm_compute; reflexivity|].
+  destruct C18_refuted_F1 as [[_ [Hd _]] _]. rewrite H1 in Hd. cbn [differs] in Hd.
+  rewrite bytes_eqb_refl in Hd. discriminate.
+Qed.
+
+(* ------------------------------------------------------------------------------------------ *)
+(* G. a non-trivial object satisfying the hypotheses *)
+
+(* Map(String, Array(Tuple(a Nullable(DateTime64(3, 'UTC')), b Enum8('x\y' = -1, 'z' = 2), Decimal(10, 2)))) *)
+Definition example_ty : ty :=
+  TApp (B "Map")
+    [ AType (TName (B "String"))
+    ; AType (TApp (B "Array")
+        [ AType (TApp (B "Tuple")
+            [ ANamed (B "a") (TApp (B "Nullable") [AType (TApp (B "DateTime64") [ANum 3; AStr (B "UTC")])])
+            ; ANamed (B "b") (TApp (B "Enum8") [AEnum (B "x\y") true 1; AEnum (B "z") false 2])
+            ; AType (TApp (B "Decimal") [ANum 10; ANum 2]) ]) ]) ].
+
+Lemma example_ok :
+  wf_ty example_ty = true /\ code_ok example_ty = true /\
+  canon_ty example_ty =
+    B "Map(String, Array(Tuple(a Nullable(DateTime64(3, 'UTC')), b Enum8('x\\y' = -1, 'z' = 2), Decimal(10, 2))))" /\
+  shown example_ty =
+    B "\'Map(String, Array(Tuple(a Nullable(DateTime64(3, \\\'UTC\\\')), b Enum8(\\\'x\\\\\\\\y\\\' = -1, \\\'z\\\' = 2), Decimal(10, 2))))\'".
+Proof. vm_compute. repeat split; reflexivity. Qed.
+
+(* packaged for Properties/C18.v *)
+Theorem parse_and_print : forall t fuel rest,
+  wf_ty t = true -> code_ok t = true -> follow_ok rest = true -> (fuel_ty t <= fuel)%nat ->
+  parse_dt fuel (print_ty t ++ rest) = Ok (Some (expect_dt t), rest) /\
+  fmt_dt (expect_dt t) = esc (esc (canon_ty t)).
+Proof.
+  intros t fuel rest Hw Hc Hf Hfuel. split; [apply parse_print|apply fmt_expect]; assumption.
+Qed.
+
+Theorem refuted_witnesses : refutes wit_F1 /\ refutes wit_F2 /\ refutes wit_F3 /\ refutes wit_F4.
+Proof.
+  exact (conj (proj1 C18_refuted_F1) (conj (proj1 C18_refuted_F2) (conj (proj1 C18_refuted_F3) (proj1 C18_refuted_F4)))).
+Qed.
